@@ -419,6 +419,13 @@ var c17Kinds = []c17Kind{
 	{name: "negg", r: "sub, obj, act", p: "sub, obj, act", g: "g = _, _",
 		matcher: "!g(r.sub, p.sub) && r.obj == p.obj && r.act == p.act",
 		cols:    map[string][]string{"sub": c17Subs, "obj": c17Objs[:2], "act": c17Acts}, names: c17Subs},
+	// eval() sub-rules that mention POLICY fields and are shared by several rows: each row has to
+	// be judged against its own fields (and permuting the rows must not matter)
+	{name: "evalp", r: "sub, obj, act", p: "sub_rule, obj, act",
+		matcher: "eval(p.sub_rule) && r.act == p.act",
+		cols: map[string][]string{"sub_rule": {"r.obj == p.obj", "r.obj == p.obj && r.sub != 'bob'", "r.sub == 'alice' || r.obj == p.obj", "r.sub == 'carol'"},
+			"obj": c17Objs, "act": c17Acts},
+		reqOnly: map[string][]string{"sub": c17Subs[:3], "obj": c17Objs}},
 	{name: "nop", r: "sub, obj", p: "sub, obj",
 		matcher: "r.sub == \"alice\" || r.obj == \"data1\"",
 		cols:    map[string][]string{"sub": c17Subs[:3], "obj": c17Objs[:2]}},
